@@ -157,6 +157,8 @@ type Thread struct {
 	held     []string // mutex keys currently held (for lock-leak monitor)
 	vc       []int
 	name     string
+	// sync operations executed since this thread was last switched away from (fairness, see schedPoint)
+	syncSince int
 }
 
 func (th *Thread) top() *Frame { return th.frames[len(th.frames)-1] }
